@@ -418,3 +418,29 @@ func verifEncodeValueWithXattrs(body, xattrs []byte) []byte {
 	}
 	return sgbucket.EncodeValueWithXattrs(body, xs...)
 }
+
+func verifCut(fn string) {}
+func verifIsSystemXattr(u string) bool { return u != "" && u[0] == '_' }
+
+func verifConcat(a, b []byte) []byte { return append(append([]byte{}, a...), b...) }
+func verifIsCounter(b []byte, n uint64) bool {
+	if b == nil {
+		return false
+	}
+	v, err := strconv.ParseUint(string(b), 10, 64)
+	return err == nil && v == n
+}
+
+var verifSnapColl = map[int]map[int64]int64{}
+
+func verifCollLastCasAt(db *sql.DB, snap int, id int64) int64 {
+	for _, r := range verifSnaps[snap]["collections"] {
+		if strings.HasPrefix(r, fmt.Sprintf("id=%#v|", id)) {
+			i := strings.Index(r, "lastCas=")
+			var v int64
+			fmt.Sscanf(r[i+len("lastCas="):], "%d", &v)
+			return v
+		}
+	}
+	return 0
+}
